@@ -136,9 +136,10 @@ func cmdCheck(args []string) int {
 	}
 	t0 := time.Now()
 	cfg := &Config{Repo: *repo, HarnessDir: *hdir, Prop: id, Tier: *tier, Seed: seed, Workers: *workers,
-		EnumCap: 64, ViolCap: 4, MaxSteps: 5000000, MaxPaths: *maxPaths, SampleCap: 48, Solver: *solver, Only: *only, Verbose: *verbose}
+		EnumCap: 64, ViolCap: 4, PreemptBound: 1, SchedRepeat: 400, MaxSteps: 5000000, MaxPaths: *maxPaths, SampleCap: 48, Solver: *solver, Only: *only, Verbose: *verbose}
 	if *tier == "thorough" {
 		cfg.SampleCap = 128
+		cfg.PreemptBound = 3
 	}
 	pc := propConfig(id)
 	cfg.Trace = pc.Trace
